@@ -365,8 +365,10 @@ func simC16(c *sim.Ctx) {
 					before := st.reads
 					b.Step(consumer, func() {
 						p, err := ps.NextPacket()
-						if err == nil || !errors.Is(err, io.EOF) || p != nil {
-							consumer.Fail("concat", "no-end-of-input-after-the-end", "ConcatFinitePacketDataSources", "read again after all its sources had reported io.EOF, the concatenation returned packet %v, error %v (want io.EOF)", p != nil, err)
+						// (which error value is the implementation's business: no packet
+						// out of nowhere, and an error that says so)
+						if err == nil || p != nil {
+							consumer.Fail("concat", "no-end-of-input-after-the-end", "ConcatFinitePacketDataSources", "read again after all its sources had reported io.EOF, the concatenation returned packet %v, error %v (want: no packet, an error)", p != nil, err)
 						}
 					})
 					if st.reads != before {
